@@ -248,11 +248,23 @@ func identOfHex(h string) []byte {
 	return b
 }
 
+// mapKeyIdent reads a key of EpochKG.SecretKeys / SecretShares back as an identity. The code keys
+// both maps by IdentityPreimage.Hex(); a key of any other form is reported as it is (it then
+// differs from every identity of the case, which the model and the oracle both notice).
+func mapKeyIdent(h string) []byte {
+	if strings.HasPrefix(h, "0x") {
+		if b, err := hex.DecodeString(h[2:]); err == nil {
+			return b
+		}
+	}
+	return []byte("map key that is not Hex(): " + h)
+}
+
 func observe(m *material, kg *epochkg.EpochKG) ([]keyObs, []pendObs, string) {
 	var ks []keyObs
 	var snap []string
 	for h, k := range kg.SecretKeys {
-		id := identOfHex(h)
+		id := mapKeyIdent(h)
 		code := 0
 		if k != nil {
 			code = 2
@@ -268,7 +280,7 @@ func observe(m *material, kg *epochkg.EpochKG) ([]keyObs, []pendObs, string) {
 	sort.Slice(ks, func(i, j int) bool { return bytes.Compare(ks[i].Ident, ks[j].Ident) < 0 })
 	var ps []pendObs
 	for h, l := range kg.SecretShares {
-		p := pendObs{Ident: identOfHex(h)}
+		p := pendObs{Ident: mapKeyIdent(h)}
 		s := "P" + h + "="
 		for _, sh := range l {
 			p.Senders = append(p.Senders, sh.Sender)
@@ -369,7 +381,16 @@ func runCase(c *seqCase) *result {
 			if dup {
 				continue
 			}
-			kc, present := have[string(id)]
+			// the key of an identity is read the way its consumers read it (keyshare.go):
+			// SecretKeys[identityPreimage.Hex()]
+			kc := 0
+			kp, present := kg.SecretKeys[identitypreimage.IdentityPreimage(id).Hex()]
+			if present {
+				kc = have[string(id)]
+				if kp != nil && kc == 0 {
+					kc = 2
+				}
+			}
 			want := len(validFrom[xi]) >= c.T
 			if present && !want {
 				viol("C01:key-below-threshold", fmt.Sprintf("a key exists for identity %x with only %d distinct valid senders (threshold %d)", id, len(validFrom[xi]), c.T), i, ks, nil)
@@ -454,9 +475,33 @@ func junkOp(c *seqCase, kind string, ident, s int) opJ {
 }
 
 func identSet(r *vh.RNG, k int) []string {
-	// distinct identities; now and then one is a prefix of another or empty
+	// distinct identities; now and then one is a prefix of another or empty, or the set is made
+	// of "near" identities: equal up to the middle bytes (same first and last bytes, as the
+	// Shutter-service identities prefix||sender of one sender are), equal up to leading zero
+	// bytes (the same number), equal length and equal up to one byte
 	out := []string{}
 	seen := map[string]bool{}
+	if k >= 2 && r.Chance(1, 3) {
+		base := r.Bytes(8 + r.Intn(45))
+		for len(out) < k {
+			b := append([]byte{}, base...)
+			switch r.Intn(3) {
+			case 0:
+				b[2+r.Intn(len(b)-4)] ^= byte(1 + r.Intn(255)) // middle byte differs
+			case 1:
+				b = append(make([]byte, 1+r.Intn(2)), b...) // leading zeros
+			default:
+				mid := r.Bytes(1 + r.Intn(6))
+				b = append(append(append([]byte{}, base[:4]...), mid...), base[len(base)-4:]...) // other length, same ends
+			}
+			h := hex.EncodeToString(b)
+			if !seen[h] {
+				seen[h] = true
+				out = append(out, h)
+			}
+		}
+		return out
+	}
 	for len(out) < k {
 		var b []byte
 		switch r.Intn(8) {
@@ -621,6 +666,12 @@ func main() {
 		}
 		seed := run.RNG.U64()
 		ab := []string{"aa", "aabb"}
+		// two identities of one sender in the Shutter-service layout (32-byte prefix || 20-byte address)
+		// whose prefixes differ in the middle only
+		near := []string{
+			"a1b2" + strings.Repeat("00", 29) + "01" + strings.Repeat("5e", 18) + "c3d4",
+			"a1b2" + strings.Repeat("00", 29) + "02" + strings.Repeat("5e", 18) + "c3d4",
+		}
 		// exhaustive sets: (n, t) whose sequence count fits the tier's budget
 		budget := run.Scale(4200, 40000)
 		for n := 1; n <= 4; n++ {
@@ -632,11 +683,19 @@ func main() {
 				if total <= budget {
 					exhaustive(n, t, seed, ab, emit)
 					run.Dist[fmt.Sprintf("exhaustive:n=%d,t=%d", n, t)] += total
+					if total*4 <= budget || run.Thorough {
+						// the same space over two identities that differ only in their middle bytes
+						exhaustive(n, t, seed, near, emit)
+						run.Dist[fmt.Sprintf("exhaustive-near-identities:n=%d,t=%d", n, t)] += total
+					}
 				} else {
 					// sample the same space
 					k := run.Scale(150, 3000)
 					for i := 0; i < k; i++ {
 						c := &seqCase{Kind: "seq", N: n, T: t, KeySeed: seed, Idents: ab, Origin: "sampled-interleaving"}
+						if i%2 == 1 {
+							c.Idents = near
+						}
 						for p := 0; p < t+2; p++ {
 							ident := run.RNG.Intn(2)
 							s := run.RNG.Intn(n + 1)
